@@ -5,7 +5,7 @@
    bindings, descr_type) of an entity with configuration c and metadata store
    md; its result is Err <exception class>, Ok None (no binding/destination
    keys) or Ok (Some (binding, destination)). *)
-From PV Require Import Lib.Base Model.PickBinding Proofs.PickBinding_lemmas.
+From PV Require Import Lib.Base Model.PickBinding Proofs.PickBinding_lemmas Proofs.PickBinding_bindstr.
 Open Scope N_scope.
 
 (* (1) For every metadata store, configuration, request, bindings argument and
@@ -226,3 +226,93 @@ Example C09_witness :
   response_args_before_fix w_cfg w_md2 (w_req None (Some (s2l "7"))) None [] = Ok (Some (B_POST, w_acs)).
 Proof. vm_compute. repeat split; reflexivity. Qed.
 Print Assumptions C09_witness.
+
+(* ------------------------------------------------------------------ *)
+(* (5) binding strings and entity ids that contain each other.  Bindings are
+   compared with str_eqb: a binding that properly contains a registered one
+   (HTTP-POST-SimpleSign / HTTP-POST, a trailing slash or space) or is properly
+   contained in it (the prefix ...:bindings:HTTP) is a DIFFERENT binding. *)
+Theorem C09_contained_binding_differs :
+  forall x y, contain_each_other x y -> str_eqb x y = false /\ str_eqb y x = false.
+Proof. exact contain_each_other_eqb. Qed.
+Print Assumptions C09_contained_binding_differs.
+
+(* the answered binding is, as a string, one of the admitted bindings (the
+   bindings argument, else [ProtocolBinding], else the configured preference)
+   AND (C09_destination_registered) the binding of the registered endpoint *)
+Theorem C09_answered_binding_admitted :
+  forall c md r bindings dt b d,
+    response_args c md r bindings dt = Ok (Some (b, d)) -> ~ soap_only bindings ->
+    exists s bl, kind_service (rq_kind r) = Some s /\
+                 binding_list c s bindings (Some r) = Ok bl /\ In b bl.
+Proof. exact (response_args_admitted true). Qed.
+Print Assumptions C09_answered_binding_admitted.
+
+(* the issuer's endpoints are registered only under binding strings different
+   from every admitted one: refused, whatever URL or index the request names *)
+Theorem C09_no_equal_binding_refused :
+  forall c md r bindings dt s eid bl,
+    kind_service (rq_kind r) = Some s -> request_entity r = Ok eid -> ~ soap_only bindings ->
+    binding_list c s bindings (Some r) = Ok bl ->
+    (forall b loc, registered md eid (kind_role c (rq_kind r) dt) s b loc -> ~ In b bl) ->
+    exists e, response_args c md r bindings dt = Err e.
+Proof. exact (response_args_no_equal_binding true). Qed.
+Print Assumptions C09_no_equal_binding_refused.
+
+(* ... in particular when every registered binding contains / is contained in
+   every admitted one (endpoint under HTTP-POST-SimpleSign, request names
+   HTTP-POST; endpoint under HTTP-POST, request names the prefix ...:HTTP) *)
+Theorem C09_contained_binding_refused :
+  forall c md r bindings dt s eid bl,
+    kind_service (rq_kind r) = Some s -> request_entity r = Ok eid -> ~ soap_only bindings ->
+    binding_list c s bindings (Some r) = Ok bl ->
+    (forall b loc, registered md eid (kind_role c (rq_kind r) dt) s b loc ->
+                   forall x, In x bl -> contain_each_other b x) ->
+    exists e, response_args c md r bindings dt = Err e.
+Proof. exact (response_args_contained_binding_refused true). Qed.
+Print Assumptions C09_contained_binding_refused.
+
+(* the same for entity ids: when the store only knows ids that contain / are
+   contained in the stripped issuer (trailing slash, one character less) the
+   request is refused *)
+Theorem C09_contained_entity_id_refused :
+  forall c md r bindings dt s eid,
+    ~ soap_only bindings -> kind_service (rq_kind r) = Some s -> request_entity r = Ok eid ->
+    (forall src e, In src md -> In e src -> contain_each_other (en_id e) eid) ->
+    exists e, response_args c md r bindings dt = Err e.
+Proof. exact (response_args_contained_entity_refused true). Qed.
+Print Assumptions C09_contained_entity_id_refused.
+
+(* non-vacuity: SP with one endpoint under HTTP-POST-SimpleSign and one under
+   HTTP-POST; the longer id (trailing slash) registered in a LATER source *)
+Definition B_SS : str := B_POST ++ s2l "-SimpleSign".
+Definition w_md3 : mdstore :=
+  [[mk_sp w_sp [[mk_sv ACS B_SS w_acs (Some (s2l "0")) None;
+                 mk_sv ACS B_POST (s2l "https://sp.example.org/acs/b") (Some (s2l "1")) None]]];
+   [mk_sp (w_sp ++ s2l "/") [[mk_sv ACS B_POST (s2l "https://sp.example.org/acs/slash") (Some (s2l "0")) None]]]].
+Definition w_reqb (iss : str) (pb url : option str) : request :=
+  mk_req KAuthn (Some (Some iss)) (Has pb) (Has url) (Has None).
+
+Example C09_binding_string_witness :
+  contain_each_other B_POST B_SS /\ contain_each_other (w_sp ++ s2l "/") w_sp /\
+  (* each binding answers with its own endpoint only *)
+  response_args w_cfg w_md3 (w_reqb w_sp (Some B_POST) None) None [] = Ok (Some (B_POST, s2l "https://sp.example.org/acs/b")) /\
+  response_args w_cfg w_md3 (w_reqb w_sp (Some B_SS) None) None [] = Ok (Some (B_SS, w_acs)) /\
+  (* the URL registered under SimpleSign is not answered under HTTP-POST, nor the other way round *)
+  response_args w_cfg w_md3 (w_reqb w_sp (Some B_POST) (Some w_acs)) None [] = Err E_SAML /\
+  response_args w_cfg w_md3 (w_reqb w_sp (Some B_SS) (Some (s2l "https://sp.example.org/acs/b"))) None [] = Err E_SAML /\
+  (* prefix, trailing slash / space, case variants of a registered binding: refused *)
+  forallb (fun b => negb (is_ok (response_args w_cfg w_md3 (w_reqb w_sp (Some b) None) None [])))
+    [ s2l "urn:oasis:names:tc:SAML:2.0:bindings:HTTP"; B_POST ++ s2l "/"; B_POST ++ s2l " ";
+      s2l "urn:oasis:names:tc:saml:2.0:bindings:http-post"; s2l "HTTP-POST"; B_SOAP ++ s2l "-x" ] = true /\
+  response_args w_cfg w_md3 (w_reqb w_sp None None) (Some [B_SOAP ++ s2l " "]) [] = Err E_SAML /\
+  (* the issuer with the trailing slash gets its own endpoint, the short issuer never that one *)
+  response_args w_cfg w_md3 (w_reqb (w_sp ++ s2l "/") None None) None [] = Ok (Some (B_POST, s2l "https://sp.example.org/acs/slash")) /\
+  response_args w_cfg w_md3 (w_reqb w_sp None (Some (s2l "https://sp.example.org/acs/slash"))) None [] = Err E_SAML /\
+  response_args w_cfg w_md3 (w_reqb (w_sp ++ s2l "/") None (Some w_acs)) None [] = Err E_SAML.
+Proof.
+  split. { left. apply proper_sub_suffix. discriminate. }
+  split. { right. apply proper_sub_suffix. discriminate. }
+  vm_compute. repeat split; reflexivity.
+Qed.
+Print Assumptions C09_binding_string_witness.
